@@ -31,19 +31,27 @@ MANIFEST = dict(
          'census of the source says (five named obligations + "no unguarded indexing/conversion/unknown call on the parse path" + '
          '"every error message formats with the arguments passed"), then for every token stream and every text nothing but '
          'KeyValError leaves the parser; each foreign exit needs its own guard to be missing. '
-         'Correspondences on every run: tokenizer model vs real Tokenizer on every string over a 23-symbol alphabet (quick: length 2 x '
-         'all 128 option vectors + length 3 x 32 vectors; thorough: length 3 x 128 + length 4 x 16), random texts, reader state after '
+         'Error texts (round 3): format_exc_fileinfo (= TokenSyntaxError.__str__) and the messages BaseTokenizer.error builds per token are '
+         'read from the source by path enumeration; under named conditions on the generated pieces formatting never fails, the text '
+         'starts with the message and shows the line number and the file name, every Token member has a message, and the text of the '
+         'error a run ends with is the same for every chunking. Keyvalues.parse installs KeyValError on the tokenizer on every path '
+         '(census obligation; the parser model calls every tokenizer error a KeyValError). '
+         'Correspondences on every run: tokenizer model vs real Tokenizer on every string over a 23-symbol alphabet up to length 3 x '
+         'all 128 option vectors in both tiers (implementation runs shared between option vectors that agree on every option a run '
+         'read; thorough also length 4 x 16), random texts, reader state after '
          'every call; BaseTokenizer model vs the real class on every sequence of up to 4 (5) of 12 public operations on 5 sources '
          '(result, _pushback list, line_num after each); parser model vs Keyvalues.parse outcome class on every token list over 9 '
-         'tokens up to length 4 (5) x 16 option vectors through IterTokenizer, every text over 13 symbols up to length 3 (4), '
+         'tokens up to length 4 (5) x 16 option vectors (+ one length deeper for 1 (4) vectors) through IterTokenizer, every text over '
+         '13 symbols up to length 3 (4), error texts of every Token member x value x file name x line; '
          'structured random token streams and texts. The implementation alone is checked for chunked == unchunked on all cut sets, '
          'foreign exceptions, EOF for ever, the read bound, and delivery = plain stream under peeks and push-backs.',
     note='Trusted: Coq kernel + vm_compute (incl. primitive Uint63 for checksums), the translators (c02_tables, c03_kvparse, '
-         'c03_basetok), the hand models Text/Tokenizer.v, Text/BaseTok.v (helper loops) and Text/KvErrModel.v (tied by the exhaustive '
+         'c03_basetok, c03_errfmt, c02_hstring), the hand models Text/Tokenizer.v, Text/BaseTok.v (helper loops) and Text/KvErrModel.v (tied by the exhaustive '
          'differential runs), CPython str/casefold. The parser model abstracts the tree to "child list empty or not" (exact for the '
          'outcome class; the tree itself is C01\'s subject) and consumes the logical token list (push_back = not consumed). '
-         'FLAGS_DEFAULT entries that depend on the platform are read from the running interpreter. File names and message texts '
-         'are outside the models (errors are identified by site / message prefix). Cython twin not covered.',
+         'FLAGS_DEFAULT entries that depend on the platform are read from the running interpreter. The literal message texts of the '
+         'individual error sites are outside the models (errors are identified by site / message prefix; the text model is generic over '
+         'them). Tokenizer built from an iterator of non-str chunks (documented ValueError) is outside the property. Cython twin not covered.',
 )
 
 SYN_ALPHA = ['"', '\\', '/', '*', '{', '}', '[', ']', '(', ')', '#', ':', '+', '=', ',', '\r', '\n', ' ', 'a', 'n', '\ufeff', "'", ';']
@@ -684,7 +692,7 @@ def corr_kvparse(ck: Ck, escalate: bool) -> None:
     rng = ck.rng
     # ---- (1) exhaustive token level
     n_all, n_deep = (5, 6) if big else (4, 5)
-    deep_bits = [2, 10, 6, 3] if big else [2, 10]
+    deep_bits = [2, 10, 6, 3] if big else [2]        # quick: one vector at the deeper length (CPU budget on the shared machine)
     tjobs = [(b, 0, n_all) for b in range(16)] + [(b, 0, n_deep) for b in deep_bits] + [(2, 1, n_all), (10, 1, n_all)]
     alpha = coq_list(f'({v}, {coq_str(sv)})' for v, sv in KV_TOK_ALPHA)
     cjobs = [[f'hfin (hash_list (kv_tokens_shard [{b}] {coq_flags(KV_FLAGSETS[fs])} {alpha} {n}))'] for b, fs, n in tjobs]
@@ -1473,7 +1481,7 @@ def run(ck: Ck) -> None:
     ck.trusted.append('hand-written model Text/Tokenizer.v and Text/Prog.v cnext/cunread (tied by exhaustive small-scope differential runs and the reader-state comparison on every run)')
     ck.trusted.append('harness/c02_util.py checksum mirror of Text/TokEnum.v (63-bit; a collision would hide a disagreement)')
     ck.assumptions.append('the chunk iterable yields str objects (bytes / non-str chunks raise ValueError by design and are outside the property)')
-    ck.assumptions.append('Keyvalues.parse is covered by search only (no model in this check)')
+    ck.assumptions.append('Keyvalues.parse is modelled at exception level only (which exception leaves it); the tree it builds is C01')
     ck.assumptions.append('pure-Python tokenizer only; the Cython twin _tokenizer.pyx cannot be built in this sandbox')
     ok_t = ck.translate('EscTables_gen', c02_tables.translate)
     side = ck.extra.get('translated', {}).get('EscTables_gen', {})
@@ -1489,7 +1497,7 @@ def run(ck: Ck) -> None:
     built = ok_t and ok_k and ok_b and ok_e and ck.build(['Props/C03.vo', 'Text/TokEnum.vo', 'Text/KvErrGen.vo', 'Text/BaseTokEnum.vo', 'Text/ErrFmtGen.vo'])
     if built:
         started = start_exhaustive_model(ck)
-        ck.theorems('Props/C03.v')
+        th = U.theorems_in_background(ck, 'Props/C03.v')
         ck.instance_obligations(U.IMPORTS + ['SV.Text.TokenizerProofs'], {
             'EOF_is_not_an_operator_token': 'ops_no_eof gen_tables',
             'token_enum_values_distinct': 'token_values_distinct',
@@ -1508,6 +1516,7 @@ def run(ck: Ck) -> None:
             'tokenizer_every_indexing_site_guarded': 'tokenizer_sites_all_guarded',
             'tokenizer_every_raise_goes_through_self_error': 'tokenizer_raises_only_through_error',
             'keyvalues_parse_raises_only_KeyValError': 'kvparse_raises_only_keyvalerror',
+            'keyvalues_parse_installs_KeyValError_on_the_tokenizer_on_every_path': 'kvparse_tokenizer_errors_are_keyvalerror',
         }, name='kvinst')
         ck.instance_obligations(BT_IMPORTS, {
             'pushback_list_is_a_stack_LIFO': 'pushback_is_lifo',
@@ -1539,6 +1548,7 @@ def run(ck: Ck) -> None:
         _stage(ck, 'corr_basetok')
         corr_errfmt(ck)
         _stage(ck, 'corr_errfmt')
+        U.join_theorems(ck, th)
     search(ck, escalate)
     _stage(ck, 'search')
     ck.extra.pop('_t_last', None)
